@@ -101,8 +101,14 @@ def struct_constraint(z3, bs, which="structured"):
 DIGIT_TEMPLATES = ["{%s}", "{:%s}", "{:.%s}", "{:%s$}", "{:.%s$}", "{%s:%s$.%s$}"]
 
 
-def digit_templates(tier):
-    out = []
+# totality "in bounded time": long repetitive literals on which a backtracking parser needs super-linear work (concrete bytes; the
+# per-path step budget and a native 10 s limit decide)
+STRESS_LITERALS = ["{" * 48, "}" * 48, "{:" * 24, "{a" * 24, "{0:" * 16, "{:.*" * 12, "{:1$.2$" * 7, "{{" * 24 + "{", "{:>" * 16, "{:#?" * 12,
+                   "{é" * 16, "{:.a$" * 10, "{ " * 24, "{:x?" * 12 + "}" * 12, "{}" * 24, "{a:b$.c$x?} " * 4]
+
+
+def digit_templates(tier, prop="C03"):
+    out = list(STRESS_LITERALS) if prop == "C18" else []
     for k in (1, 2, 3, 4, 5, 6) + ((20, 21) if tier == "thorough" else ()):
         for t in DIGIT_TEMPLATES[:5]:
             out.append(t % ("D" * k))
@@ -152,9 +158,9 @@ def explore(tier, prop):
         if tier == "thorough":
             # one placeholder with every optional part of a format spec: all lengths of the placeholder language
             passes += [(n, "placeholder") for n in range(2, 19)]
-    passes = [(n, w, None) for n, w in passes] + [(len(t), "digits", t) for t in digit_templates(tier)]
+    passes = [(n, w, None) for n, w in passes] + [(len(t.encode()), "digits", t) for t in digit_templates(tier, prop)]
     res["passes"] = [(n, w) for n, w, _ in passes]
-    res["digit_templates"] = digit_templates(tier)
+    res["digit_templates"] = digit_templates(tier, prop)
     for pi, (n, which, tmpl) in enumerate(passes):
         outdir = os.path.join(scratch, "paths-%d-%d" % (pi, n))
         os.makedirs(outdir)
@@ -181,7 +187,8 @@ def explore(tier, prop):
             elif n and which in ("structured", "placeholder"):
                 st.pc.append(struct_constraint(z3, bs, which))
             elif n:
-                st.pc.append(z3.And(*[z3.And(z3.UGE(b, 0x30), z3.ULE(b, 0x39)) if c == "D" else b == ord(c) for b, c in zip(bs, tmpl)]))
+                tb = tmpl.encode()
+                st.pc.append(z3.And(*[z3.And(z3.UGE(b, 0x30), z3.ULE(b, 0x39)) if c == 0x44 else b == c for b, c in zip(bs, tb)]))
 
         def describe(kind, detail, st, m, bs=bs):
             inp = [m.eval(b, model_completion=True).as_long() for b in bs] if m is not None else None
